@@ -395,11 +395,19 @@ def macro_population(tier, seed):
     return out
 
 
-def check_C13(tier, seed):
-    def owner(cg, prop):
-        return "C13" if prop in ("C01", "C02", "C04", "C06", "C07", "C17", "C19", "C08") else prop + "@base"
+def _macro_owner(cg, prop):
+    # a value that differs only in location numbers is C06's (its population includes @L/@R inside macro bodies)
+    if prop == "C06":
+        return "C06"
+    return "C13" if prop in ("C01", "C02", "C04", "C07", "C17", "C19", "C08") else prop + "@base"
 
-    s = _summary("macro", tier, seed, macro_population, _prec_variants, owner)
+
+def macro_summary(tier, seed):
+    return _summary("macro", tier, seed, macro_population, _prec_variants, _macro_owner)
+
+
+def check_C13(tier, seed):
+    s = macro_summary(tier, seed)
     viol = []
     for m, msg in s["rejected"]:
         gid, algo, backend = m.split("_")
